@@ -3268,3 +3268,6 @@ func (ps *ProverSet) DumpSummary(fn *ssa.Function) string {
 	}
 	return sb.String()
 }
+
+// InstrDominates: a executes before b on every path to b (a != b).
+func InstrDominates(a, b ssa.Instruction) bool { return instrDominates(a, b) }
